@@ -1,11 +1,186 @@
 /-
-  C09 — property theorems only (placeholder until the refinement proof lands).
--/
-import JSV.Model.Validate
-namespace JSV.C09
-open JSV Go
+  C09 — JSON accepted by an inferred schema decodes.  Property theorems only
+  (helper lemmas: JSV/Proofs/Inf*.lean; the model of encoding/json on the fragment — `decodable`, the
+  decoder with DisallowUnknownFields — is JSV/Spec/EncJson.lean).
 
-theorem validateFuel_zero (env : VEnv) (stack : List NodeId) (i : GoVal) (s : NodeId) :
-    validateFuel env 0 stack i s = .fuel := rfl
+  Vocabulary: as in C04; `EncJson.decodable T j`: json.Decoder with DisallowUnknownFields accepts `j` for `T`
+  (null everywhere, integers integral and within the kind's range, arrays of any length, objects with known
+  keys only — exact or case-insensitive match); `EncJson.PlainInts j`: every integer-valued number of `j`
+  lies within int64 (the schema states no bound for int / int64 and no maximum for uint / uint64 / uintptr).
+-/
+import JSV.Proofs.InfTight
+namespace JSV.C09
+open JSV Go EncJson Spec
+
+/-! ## the kind table against the value ranges of the Go kinds -/
+
+/-- for every sized integer kind the schema's minimum / maximum are exactly the ends of the value range -/
+theorem int_bounds_tight :
+    ∀ k, k ∈ sizedKinds → ∃ lo hi, kindEntry k = some ("integer", some lo, some hi) ∧
+      minValue k = some lo ∧ maxValue k = some hi := by
+  intro k hk
+  simp only [sizedKinds, List.mem_cons, List.not_mem_nil, or_false] at hk
+  rcases hk with rfl | rfl | rfl | rfl | rfl | rfl <;> exact ⟨_, _, rfl, rfl, rfl⟩
+
+/-- for every integer kind: a stated bound is the exact end of the range; an unstated one is an end of
+    int64 / at least the end of int64 (which is where `PlainInts` takes over) -/
+theorem int_bounds_tight_all (k : String) (lo hi : Int) (h : intRange k = some (lo, hi)) :
+    ∃ mn mx, kindEntry k = some ("integer", mn, mx) ∧ (mn = some lo ∨ (mn = none ∧ lo = -9223372036854775808)) ∧
+      (mx = some hi ∨ (mx = none ∧ 9223372036854775807 ≤ hi)) :=
+  int_table_tight h
+
+/-! ## the main statement -/
+
+/-- **main (fragment)**: a document that the schema returned by `ForType` accepts is one the decoder accepts
+    for the type (`Json.WF j`, distinct keys, is not needed) -/
+theorem infer_tight (opts : IOpts) (fuel : Nat) (T : GoType) (st : Store) (id : NodeId) (st' : Store)
+    (re : String → String → Bool) (hdom : InDomain T = true)
+    (h : forType opts fuel T st = .ok (some id, st')) (j : Json) (hp : PlainInts j = true)
+    (fuel' : Nat) (hv : Spec.valid (specEnvNoRefs st' re) fuel' id j = some true) :
+    decodable T j = true := by
+  obtain ⟨id', hid, hm⟩ := inferFuel_models opts fuel T [] st (some id) st' hdom h
+  cases hid
+  exact Models.tight (re := re) T false id hm hdom fuel' [] j hp (valid_iff_isSome.2 hv)
+
+/-- contrapositive: what does not decode is not accepted -/
+theorem not_decodable_rejected (opts : IOpts) (fuel : Nat) (T : GoType) (st : Store) (id : NodeId) (st' : Store)
+    (re : String → String → Bool) (hdom : InDomain T = true)
+    (h : forType opts fuel T st = .ok (some id, st')) (j : Json) (hp : PlainInts j = true)
+    (hnd : decodable T j = false) (fuel' : Nat) :
+    Spec.valid (specEnvNoRefs st' re) fuel' id j ≠ some true := by
+  intro hv
+  rw [infer_tight opts fuel T st id st' re hdom h j hp fuel' hv] at hnd
+  cases hnd
+
+/-! ## the five mutation classes -/
+
+/-- (1) a missing always-written field is rejected (the decoder would accept: this one is the schema's own) -/
+theorem missing_required_rejected (opts : IOpts) (fuel : Nat) (fields : List (String × String × GoType)) (st : Store)
+    (id : NodeId) (st' : Store) (re : String → String → Bool) (hdom : InDomain (.struct fields) = true)
+    (h : forType opts fuel (.struct fields) st = .ok (some id, st'))
+    (kvs : List (String × Json)) (k : String) (hk : k ∈ alwaysNames fields) (hmiss : Json.lookup k kvs = none)
+    (fuel' : Nat) :
+    Spec.valid (specEnvNoRefs st' re) fuel' id (.obj kvs) ≠ some true := by
+  intro hv
+  obtain ⟨id', hid, hm⟩ := inferFuel_models opts fuel _ [] st (some id) st' hdom h
+  cases hid
+  have := Models.required (re := re) hm (valid_iff_isSome.2 hv) k hk
+  rw [hmiss] at this
+  cases this
+
+/-- (2) an undeclared property is rejected: a key that is no field's JSON name, exactly or case-insensitively -/
+theorem undeclared_property_rejected (opts : IOpts) (fuel : Nat) (fields : List (String × String × GoType)) (st : Store)
+    (id : NodeId) (st' : Store) (re : String → String → Bool) (hdom : InDomain (.struct fields) = true)
+    (h : forType opts fuel (.struct fields) st = .ok (some id, st'))
+    (kvs : List (String × Json)) (hp : PlainInts (.obj kvs) = true) (k : String) (v : Json) (hkv : (k, v) ∈ kvs)
+    (hexact : decodableExact fields k v = none) (hfold : decodableFold fields k v = none) (fuel' : Nat) :
+    Spec.valid (specEnvNoRefs st' re) fuel' id (.obj kvs) ≠ some true := by
+  refine not_decodable_rejected opts fuel _ st id st' re hdom h _ hp ?_ fuel'
+  simp only [decodable]
+  cases hall : kvs.all fun p =>
+      match decodableExact fields p.1 p.2 with
+      | some b => b
+      | none => (decodableFold fields p.1 p.2).getD false with
+  | false => rfl
+  | true =>
+    have := List.all_eq_true.1 hall (k, v) hkv
+    simp [hexact, hfold] at this
+
+/-- (3) a wrong JSON type is rejected: e.g. anything but `null` or an array for a slice or array type,
+    anything but `null` or an object for a map or struct type, and for the basic kinds whatever
+    `decodableBasic` refuses (a string for a bool, a fraction for an integer, …) -/
+theorem wrong_type_rejected (opts : IOpts) (fuel : Nat) (T : GoType) (st : Store) (id : NodeId) (st' : Store)
+    (re : String → String → Bool) (hdom : InDomain T = true)
+    (h : forType opts fuel T st = .ok (some id, st')) (fuel' : Nat) :
+    (∀ e b, T = .slice e → Spec.valid (specEnvNoRefs st' re) fuel' id (.bool b) ≠ some true) ∧
+    (∀ e s, T = .slice e → Spec.valid (specEnvNoRefs st' re) fuel' id (.str s) ≠ some true) ∧
+    (∀ e kvs, T = .slice e → PlainInts (.obj kvs) = true → Spec.valid (specEnvNoRefs st' re) fuel' id (.obj kvs) ≠ some true) ∧
+    (∀ fs xs, T = .struct fs → PlainInts (.arr xs) = true → Spec.valid (specEnvNoRefs st' re) fuel' id (.arr xs) ≠ some true) ∧
+    (∀ fs s, T = .struct fs → Spec.valid (specEnvNoRefs st' re) fuel' id (.str s) ≠ some true) ∧
+    (∀ s, T = .basic "Bool" → Spec.valid (specEnvNoRefs st' re) fuel' id (.str s) ≠ some true) ∧
+    (∀ b, T = .basic "String" → Spec.valid (specEnvNoRefs st' re) fuel' id (.bool b) ≠ some true) := by
+  refine ⟨?_, ?_, ?_, ?_, ?_, ?_, ?_⟩
+  · rintro e b rfl
+    exact not_decodable_rejected opts fuel _ st id st' re hdom h _ rfl (by simp [decodable]) fuel'
+  · rintro e s rfl
+    exact not_decodable_rejected opts fuel _ st id st' re hdom h _ rfl (by simp [decodable]) fuel'
+  · rintro e kvs rfl hp
+    exact not_decodable_rejected opts fuel _ st id st' re hdom h _ hp (by simp [decodable]) fuel'
+  · rintro fs xs rfl hp
+    exact not_decodable_rejected opts fuel _ st id st' re hdom h _ hp (by simp [decodable]) fuel'
+  · rintro fs s rfl
+    exact not_decodable_rejected opts fuel _ st id st' re hdom h _ rfl (by simp [decodable]) fuel'
+  · rintro s rfl
+    exact not_decodable_rejected opts fuel _ st id st' re hdom h _ rfl (by simp [decodable, decodableBasic]) fuel'
+  · rintro b rfl
+    exact not_decodable_rejected opts fuel _ st id st' re hdom h _ rfl (by simp [decodable, decodableBasic]) fuel'
+
+/-- (4) an integer outside the range of its kind is rejected (within int64: beyond it int / int64 / uint* have
+    no schema bound, see `PlainInts`) -/
+theorem out_of_range_rejected (opts : IOpts) (fuel : Nat) (kind : String) (lo hi : Int) (st : Store) (id : NodeId)
+    (st' : Store) (re : String → String → Bool) (hdom : InDomain (.basic kind) = true)
+    (hr : intRange kind = some (lo, hi)) (h : forType opts fuel (.basic kind) st = .ok (some id, st'))
+    (i : Int) (hi64 : -9223372036854775808 ≤ i ∧ i ≤ 9223372036854775807) (hout : i < lo ∨ hi < i) (fuel' : Nat) :
+    Spec.valid (specEnvNoRefs st' re) fuel' id (.num (i : Rat)) ≠ some true := by
+  have hkind : kind ∈ intKinds := by
+    have hd : domainKinds.contains kind = true := hdom
+    rcases domainKinds_cases hd with rfl | rfl | rfl | hfl | hint
+    · simp [intRange] at hr
+    · simp [intRange] at hr
+    · simp [intRange] at hr
+    · simp only [floatKinds, List.mem_cons, List.not_mem_nil, or_false] at hfl
+      rcases hfl with rfl | rfl <;> simp [intRange] at hr
+    · exact hint
+  obtain ⟨h1, h2⟩ := not_float_of_int hkind
+  refine not_decodable_rejected opts fuel _ st id st' re hdom h _ ?_ ?_ fuel'
+  · simp only [PlainInts, Rat.den_intCast, bne_self_eq_false, Bool.false_or, Bool.and_eq_true, decide_eq_true_eq]
+    exact ⟨Rat.intCast_le_intCast.2 hi64.1, Rat.intCast_le_intCast.2 hi64.2⟩
+  · simp only [decodable, decodableBasic, h1, h2, hr, Bool.false_or, Rat.den_intCast, beq_self_eq_true, Bool.true_and]
+    rcases hout with hlt | hlt
+    · have : ¬ ((lo : Rat) ≤ (i : Rat)) := fun hle => by
+        have := Rat.intCast_le_intCast.1 hle
+        omega
+      simp [this]
+    · have : ¬ ((i : Rat) ≤ (hi : Rat)) := fun hle => by
+        have := Rat.intCast_le_intCast.1 hle
+        omega
+      simp [this]
+
+/-- (5) a Go array `[n]T` only accepts arrays of length `n` (the decoder would accept any length: this one is
+    the schema's own) -/
+theorem wrong_array_length_rejected (opts : IOpts) (fuel : Nat) (len : Nat) (e : GoType) (st : Store)
+    (id : NodeId) (st' : Store) (re : String → String → Bool) (hdom : InDomain (.array len e) = true)
+    (h : forType opts fuel (.array len e) st = .ok (some id, st')) (xs : List Json) (hlen : xs.length ≠ len)
+    (fuel' : Nat) :
+    Spec.valid (specEnvNoRefs st' re) fuel' id (.arr xs) ≠ some true := by
+  intro hv
+  obtain ⟨id', hid, hm⟩ := inferFuel_models opts fuel _ [] st (some id) st' hdom h
+  cases hid
+  exact hlen (Models.arrayLen (re := re) hm (valid_iff_isSome.2 hv))
+
+
+/-! ## labelled tests: the statements evaluated on concrete data -/
+
+/-- `[2]bool`: length 1 and 3 rejected, length 2 accepted, `null` rejected (no pointer) -/
+example : (match forType {} 3 (.array 2 (.basic "Bool")) #[] with
+    | .ok (some id, st') =>
+      [Spec.valid (specEnvNoRefs st') 2 id (.arr [.bool true]),
+       Spec.valid (specEnvNoRefs st') 2 id (.arr [.bool true, .bool false]),
+       Spec.valid (specEnvNoRefs st') 2 id (.arr [.bool true, .bool false, .bool true]),
+       Spec.valid (specEnvNoRefs st') 2 id .null]
+    | _ => []) = [some false, some true, some false, some false] := by decide
+
+/-- `map[string]*uint8`: -1 and 256 rejected, 255 and null accepted -/
+example : (match forType {} 3 (.map "String" (.ptr (.basic "Uint8"))) #[] with
+    | .ok (some id, st') =>
+      [Spec.valid (specEnvNoRefs st') 2 id (.obj [("a", .num (-1))]),
+       Spec.valid (specEnvNoRefs st') 2 id (.obj [("a", .num 256)]),
+       Spec.valid (specEnvNoRefs st') 2 id (.obj [("a", .num 255), ("b", .null)]),
+       Spec.valid (specEnvNoRefs st') 2 id (.obj [("a", .str "x")])]
+    | _ => []) = [some false, some false, some true, some false] := by decide
+
+example : decodable (.map "String" (.ptr (.basic "Uint8"))) (.obj [("a", .num 255), ("b", .null)]) = true := by decide
+example : decodable (.map "String" (.ptr (.basic "Uint8"))) (.obj [("a", .num 256)]) = false := by decide
+example : PlainInts (.obj [("a", .num 255), ("b", .null)]) = true := by decide
 
 end JSV.C09
